@@ -135,6 +135,7 @@ class Recorder:
         self.opaque_done = set()
         self.normlog = {}
         self.tyids = {}
+        self.contids = {}       # container classes (`item.container`, e.g. List for \\item) -> id, in order of first sight
         self.fields = {}        # id(obj) -> fields captured when first pulled
 
     def newid(self, x):
@@ -146,6 +147,13 @@ class Recorder:
 
     def tyid(self, cls):
         return self.tyids.setdefault(cls, len(self.tyids) + 1)
+
+    def contid(self, x):
+        """`getattr(item, 'container', None)`: 0 for None, else the id of the container class"""
+        c = getattr(x, 'container', None)
+        if c is None or not isinstance(c, type):
+            return 0
+        return self.contids.setdefault(c, len(self.contids) + 1)
 
     def capture(self, x):
         K = _classes()
@@ -160,7 +168,7 @@ class Recorder:
                      _fn(cls.normalize) is not _fn(Node.normalize)]
             hasargs = bool(x.attributes) and any(getattr(v, 'nodeType', None) is not None for v in x.attributes.values())
             return dict(elem=1, level=int(x.level), depth=int(x.contextDepth), block=int(bool(x.blockType)), dk=dk,
-                        ty=self.tyid(cls), flags=flags, chars=[], hasargs=hasargs)
+                        ty=self.tyid(cls), flags=flags, chars=[], hasargs=hasargs, cont=self.contid(x))
         s = str(x)
         ws = bool(x.isElementContentWhitespace)
         return dict(elem=0, level=int(getattr(x, 'level', 1001)), depth=int(getattr(x, 'contextDepth', 1000)),
@@ -273,9 +281,11 @@ class Recorder:
         ws = f['flags'][3]
         src = [] if (f['elem'] or ws) else [gid]
         argl = [gid] if f['hasargs'] and f['level'] != 101 else []
-        out.append('%d:%d:%d:%d:%d:%s:%d:%s:%s:%s:%s:%d' % (
+        isa = [cid for ccls, cid in self.contids.items() if isinstance(x, ccls)] if f['elem'] else []
+        out.append('%d:%d:%d:%d:%d:%s:%d:%s:%s:%s:%s:%d:%s:%d' % (
             gid, f['elem'], f['level'], f['depth'], f['block'], dk, f['ty'], ''.join('1' if b else '0' for b in f['flags']),
-            self.dots(f['chars']) if not f['elem'] else '-', self.dots(src), self.dots(argl), len(kids)))
+            self.dots(f['chars']) if not f['elem'] else '-', self.dots(src), self.dots(argl),
+            f.get('cont', 0), self.dots(isa), len(kids)))
         for k in kids:
             self.word(k, out, top=False)
         if top and not kids and f.get('prewords'):
@@ -459,6 +469,14 @@ class Gen:
             return cw + first + ' ' + fn()
         return cw + ' ' + fn()
 
+    def decl(self):
+        """sometimes a bare font/size declaration at the start of a list item: it stays open until the next \\item
+        (or the end of the list), which must end it"""
+        if self.rng.random() < 0.15:
+            self.features.add('bare-declaration')
+            return self.rng.choice(['\\bfseries ', '\\itshape ', '\\small ', '\\sffamily ', '\\em '])
+        return ''
+
     def repeated(self):
         """one of the document's recurring phrases, as an argument, as verbatim text or as a formula"""
         r = self.rng
@@ -589,7 +607,7 @@ class Gen:
         if k < 0.50:
             env = r.choice(['itemize', 'enumerate'])
             items = ''.join('%s\n' % (('\\item ' + self.single_par_env(depth - 1).strip()) if r.random() < 0.2
-                                      else self.glue('\\item', lambda: self.blocks(depth - 1, 1, 2).strip()))
+                                      else self.glue('\\item', lambda: self.decl() + self.blocks(depth - 1, 1, 2).strip()))
                             for _ in range(r.randint(1, 3)))
             return '\\begin{%s}\n%s\\end{%s}\n' % (env, items, env)
         if k < 0.58:
